@@ -119,7 +119,9 @@ export function genFileSet(rng, opts = {}) {
   const nDefs = opts.nDefs ?? rng.int(3)
   const withInclude = opts.withInclude ?? rng.bool(0.25)
   const moduleNames = withModule ? ['m'] : []
-  const defNames = Array.from({ length: nDefs }, (_, i) => ['t1', 'item-tpl', 'T3'][i])
+  // (template names are looked up in tables: a name that also is a member of Object.prototype is a name like any other)
+  const defPool = rng.bool(0.12) ? ['toString', '__proto__', 'constructor'] : ['t1', 'item-tpl', 'T3']
+  const defNames = Array.from({ length: nDefs }, (_, i) => defPool[i])
   const includes = []
   if (withInclude) {
     const incCtx = new GenCtx({ moduleNames: [], maxDepth: 1, allowSlot: false, families: opts.families, noCall: opts.noCall, safeLists: opts.safeLists })
